@@ -1,7 +1,7 @@
 (** C20 - Server addresses parse according to the documented grammar. Statements only. *)
 From Coq Require Import ZArith List Bool Lia.
 From Coq Require Import String.
-From VD Require Import Base.Bytes Base.Text Model.Server Proofs.ServerP.
+From VD Require Import Base.Bytes Base.Text Model.Server Proofs.ServerP Gen.ParseServer Proofs.ServerTie.
 Import ListNotations.
 Open Scope Z_scope.
 
@@ -74,3 +74,10 @@ Proof.
   repeat split; try (vm_compute; reflexivity); try (vm_compute; intuition discriminate).
   repeat constructor.
 Qed.
+
+(** The function the theorems above speak of is the source's own: [gen_parse_server] is regenerated from the text of
+    command.parse_server on every run (gen/server.py: startswith, partition, split, indexing, len, int(), raise,
+    try/except around IPv4Address, os.path.exists and IPv6Address as parameters) and equals the model for every string. *)
+Theorem C20_parse_server_is_source : forall ex v6 s, gen_parse_server ex v6 s = parse_server ex v6 s.
+Proof. exact parse_server_is_source. Qed.
+Print Assumptions C20_parse_server_is_source.
